@@ -13,7 +13,7 @@ import concurrent.futures as cf, glob, json, os, shutil, subprocess, sys, tempfi
 V = os.path.dirname(os.path.dirname(os.path.abspath(__file__)))
 ENV = dict(os.environ, GOFLAGS="-mod=mod", GOPROXY="off", GOSUMDB="off", GOTOOLCHAIN="local")
 ENV.pop("GOWORK", None)
-BIN = os.path.join(V, "bin/grpchanlint")
+BIN = os.environ.get("GRPCHANLINT_BIN", os.path.join(V, "bin/grpchanlint"))
 
 
 def sh(cmd, cwd, timeout=1200):
